@@ -79,6 +79,14 @@ TICK_FLOWS = {
 # flows with inputs typed NoOrder (index list): the driver may present them in any order
 TICK_FLOWS["t_join_half_unord"] = F(["kv", "kv"], "ord", props=("C29",))
 TICK_FLOWS["t_join_half_unord"]["unordered"] = [1]
+for _n, _i in [("u_max", "n"), ("u_min", "n"), ("u_count", "n"), ("u_first", "n"), ("u_last", "n"),
+               ("u_is_empty", "n"), ("u_value_counts", "kv"), ("u_get_max_key", "kv")]:
+    TICK_FLOWS[_n] = F([_i], "agg" if _n != "u_value_counts" else "keyed", props=("C32",))
+# how the harness may perturb the batch of each C32 flow: 'perm' any order, 'dupset' any order and
+# multiplicity >= 1 (NoOrder + AtLeastOnce), 'stutter' in-place repetition (TotalOrder + AtLeastOnce)
+PERTURB = {"u_max": ["perm", "dupset"], "u_min": ["perm", "dupset"], "u_count": ["perm"],
+           "u_first": ["stutter"], "u_last": ["stutter"], "u_is_empty": ["perm"],
+           "u_value_counts": ["perm"], "u_get_max_key": []}
 FLOWS.update(TICK_FLOWS)
 
 # structural tokens of the surface syntax that are not operators of the emission table
@@ -455,3 +463,125 @@ def run_standard(ctx, spec, extra_coverage):
         vlib.standard_check(ctx, spec)
     finally:
         vlib.finish = orig
+
+
+# ---------------------------------------------------------------------------- C32: trusted call sites
+
+_SITE = re.compile(r"\.\s*assume_(ordering|retries)_trusted(_bounded)?\b|self\.assume_(ordering|retries)_trusted(_bounded)?\b")
+_FN = re.compile(r"^\s*(?:pub(?:\([a-z]+\))?\s+)?fn\s+(\w+)")
+
+
+def trusted_sites():
+    """every `assume_ordering_trusted` / `assume_retries_trusted` call in
+    hydro_lang/src/live_collections/** (regenerated from the source on every run) as
+    'file::enclosing fn::kind' keys with multiplicity"""
+    base = os.path.join(REPO, "hydro_lang/src/live_collections")
+    sites = []
+    for d, _, fs in os.walk(base):
+        for f in sorted(fs):
+            if not f.endswith(".rs"):
+                continue
+            path = os.path.join(d, f)
+            rel = os.path.relpath(path, base)
+            cur = "?"
+            for ln, line in enumerate(open(path, errors="replace"), 1):
+                s = line.strip()
+                if s.startswith("//"):
+                    continue
+                m = _FN.match(line)
+                if m:
+                    cur = m.group(1)
+                    if cur.startswith("assume_"):
+                        continue
+                for mm in re.finditer(r"assume_(ordering|retries)_trusted(_bounded)?", line):
+                    if re.search(r"fn\s+assume_", line):
+                        continue
+                    kind = mm.group(1) + ("_bounded" if mm.group(2) else "")
+                    sites.append(("%s::%s::%s" % (rel, cur, kind), ln))
+    return sites
+
+
+# site -> (status, justification).  status: 'proved' (Coq theorem named), 'noop' (identity on the
+# type level: the cast cannot change the runtime kind), 'forward' (helper forwarding its caller's
+# guard), 'unproved' (modelled list only; justification depends on an upstream invariant and is not
+# proved here), 'test' (inside #[cfg(test)] code)
+TRUSTED_TABLE = {
+    "stream/mod.rs::max::retries": ("proved", "max_set_invariant (duplication does not change the set)"),
+    "stream/mod.rs::max::ordering_bounded": ("proved", "max_set_invariant (permutation)"),
+    "stream/mod.rs::min::retries": ("proved", "min_set_invariant"),
+    "stream/mod.rs::min::ordering_bounded": ("proved", "min_set_invariant"),
+    "stream/mod.rs::first::retries": ("proved", "first_stutter (TotalOrder + AtLeastOnce = stuttering)"),
+    "stream/mod.rs::last::retries": ("proved", "last_stutter"),
+    "stream/mod.rs::count::ordering": ("proved", "count_perm"),
+    "stream/mod.rs::is_empty::ordering": ("proved", "is_empty_perm"),
+    "stream/mod.rs::assume_ordering_trusted_bounded::ordering": ("forward", "helper: trusted only when Bounded, else plain assume_ordering"),
+    "stream/mod.rs::weaken_ordering::ordering": ("proved", "weaken_sound (cast to a weaker guarantee)"),
+    "stream/mod.rs::make_totally_ordered::ordering": ("noop", "O: IsOrdered implies O = TotalOrder; use_ordering_type panics otherwise"),
+    "stream/mod.rs::weaken_retries::retries": ("proved", "weaken_sound (cast to a weaker guarantee)"),
+    "stream/mod.rs::make_exactly_once::retries": ("noop", "R: IsExactlyOnce implies R = ExactlyOnce"),
+    "stream/mod.rs::repeat_with_keys::ordering": ("unproved", "keys of a keyed singleton are distinct; per-key groups do not depend on key order"),
+    "keyed_stream/mod.rs::weaken_ordering::ordering": ("proved", "weaken_sound"),
+    "keyed_stream/mod.rs::make_totally_ordered::ordering": ("noop", "O: IsOrdered"),
+    "keyed_stream/mod.rs::weaken_retries::retries": ("proved", "weaken_sound"),
+    "keyed_stream/mod.rs::make_exactly_once::retries": ("noop", "R: IsExactlyOnce"),
+    "keyed_stream/mod.rs::value_counts::ordering": ("proved", "value_counts_perm"),
+    "keyed_singleton.rs::into_singleton_inside_tick::ordering": ("unproved", "entries have distinct keys (upstream invariant); insert is commutative on distinct keys"),
+    "keyed_singleton.rs::into_singleton::ordering": ("unproved", "same as into_singleton_inside_tick"),
+    "keyed_singleton.rs::get_max_key::ordering": ("unproved", "distinct keys + total order on keys give a unique maximum; exercised by the u_get_max_key flow"),
+    "sliced/mod.rs::sim_sliced_atomic_keyed_stream::ordering": ("test", "inside #[cfg(test)] mod tests"),
+}
+
+
+def trusted_check():
+    """compare the scanned call sites with the modelled table; returns (report, problems)"""
+    sites = trusted_sites()
+    problems, rows = [], []
+    seen = set()
+    for key, ln in sites:
+        k = key if key in TRUSTED_TABLE else None
+        if k is None:
+            problems.append("unmodelled trusted call site %s (line %d)" % (key, ln))
+            rows.append({"site": key, "line": ln, "status": "UNMODELLED"})
+            continue
+        seen.add(k)
+        rows.append({"site": key, "line": ln, "status": TRUSTED_TABLE[k][0], "justification": TRUSTED_TABLE[k][1]})
+    for k in TRUSTED_TABLE:
+        if k not in seen:
+            problems.append("modelled call site %s no longer exists in the source" % k)
+    return rows, problems
+
+
+def gen_trusted_cases(rng, tier, flows):
+    """C32: base batches of <= 5 items; every permutation (ordering sites), random duplications
+    (retries sites); each case carries the base batch the result must be equal to"""
+    cases = []
+    reps = 5 if tier == "thorough" else 2
+    for flow in flows:
+        kind = FLOWS[flow]["inputs"][0]
+        for rep in range(reps):
+            n = rng.range(0, 5) if rep else rng.range(3, 5)
+            base = gen_input(rng, kind, n)
+            variants = [("base", base)]
+            for p in PERTURB[flow]:
+                if p == "perm":
+                    perms = sorted(set(itertools.permutations([tuple(x) if isinstance(x, list) else x for x in base])))
+                    if len(perms) > 40 and tier != "thorough":
+                        perms = rng.sample(perms, 40)
+                    variants += [("perm", [list(x) if isinstance(x, tuple) else x for x in q]) for q in perms]
+                elif p == "dupset" and base:
+                    for _ in range(8):
+                        v = list(base) + [rng.choice(base) for _ in range(rng.range(1, 4))]
+                        variants.append(("dupset", rng.shuffle(v)))
+                elif p == "stutter":
+                    for _ in range(8):
+                        v = []
+                        for x in base:
+                            v += [x] * rng.range(1, 3)
+                        variants.append(("stutter", v))
+            for src, v in variants:
+                cases.append({"flow": flow, "ticks": [{"a": v}, {"a": []}], "base": [{"a": base}, {"a": []}], "src": src})
+            # the base input cut into ticks in all ways: the per-tick results follow the batches
+            for c in all_partitions(flow, [base], 2, src="base"):
+                c["base"] = c["ticks"]
+                cases.append(c)
+    return cases
